@@ -1,31 +1,73 @@
-(* C02 — Uist fills honour limit/stop conditions and use the correct side of the quote.
-   Statements only. Every statement is for every number type F with operations Num F: no law of
-   arithmetic is assumed, so they hold of the IEEE instance that is compared bit-for-bit with the
-   code (NaNs included). *)
-From Coq Require Import ZArith NArith List Bool String.
-From Alator Require Import Model.Num Model.Exchange Model.Uist Proofs.UistProofs.
+(* C02 — Uist fills honour limit/stop conditions and use the correct side of the quote. Statements only. Every statement is for every number type F with operations Num F: no law of arithmetic is assumed, so they hold of the IEEE instance that is compared bit-for-bit with the code (NaNs included). *)
+From Coq Require Import ZArith NArith List Bool String Permutation Sorted Floats.
+From Alator Require Import Model.Num Model.Quirks Model.Exchange Model.Uist Model.Jura Model.Server
+  Proofs.ListAux Proofs.ExchangeProofs Proofs.UistProofs Proofs.JuraProofs Proofs.ExchangeCorollaries
+  Proofs.ServerProofs.
+Import ListNotations.
 Local Open Scope num_scope.
 
-(* A resting order whose symbol is quoted fires iff the property's condition holds. *)
-Theorem c02_fires_iff : forall (F : Type) (NF : Num F) (o : uorder F) (q : quote F),
-  well_formed o -> uist_fires o q = true <-> ShouldFill (uo_type o) (uo_price o) q.
+(* A resting order whose symbol is quoted fires iff the property's condition holds (ShouldFill, written independently: market always; limit buy ask <= limit; limit sell bid >= limit; stop buy ask >= stop; stop sell bid <= stop). *)
+Theorem c02_fires_iff :
+  forall (F : Type) (NF : Num F) (o : uorder F) (q : quote F),
+         well_formed o -> uist_fires o q = true <-> ShouldFill (uo_type o) (uo_price o) q.
 Proof. exact @uist_fires_iff. Qed.
 
-(* Buys fill at that tick's ask and sells at its bid, for exactly the ordered quantity, value =
-   price x quantity, dated by the quote. *)
-Theorem c02_trade_fields : forall (F : Type) (NF : Num F) (o : uorder F) (q : quote F),
-  let t := uist_trade o q in
-  t_symbol t = uo_symbol o /\ t_quantity t = uo_shares o /\ t_date t = q_date q /\
-  (otype_is_sell (uo_type o) = false -> t_side t = Buy /\ t_value t = q_ask q * uo_shares o) /\
-  (otype_is_sell (uo_type o) = true -> t_side t = Sell /\ t_value t = q_bid q * uo_shares o).
+(* Buys fill at that tick's ask and sells at its bid, for exactly the ordered quantity, value = price x quantity, dated by the quote. *)
+Theorem c02_trade_fields :
+  forall (F : Type) (NF : Num F) (o : uorder F) (q : quote F),
+         let t := uist_trade o q in
+         t_symbol t = uo_symbol o /\
+         t_quantity t = uo_shares o /\
+         t_date t = q_date q /\
+         (otype_is_sell (uo_type o) = false ->
+          t_side t = Buy /\ t_value t = q_ask q * uo_shares o) /\
+         (otype_is_sell (uo_type o) = true ->
+          t_side t = Sell /\ t_value t = q_bid q * uo_shares o).
 Proof. exact @uist_trade_fields. Qed.
 
 (* The decision is fill-or-rest: nothing else ever happens to a Uist order. *)
-Theorem c02_fill_or_rest : forall (F : Type) (NF : Num F) (e : entry (uorder F)) (q : quote F),
-  (uist_fires (e_ord e) q = true /\ uist_decide e q = AFill (uist_trade (e_ord e) q)) \/
-  (uist_fires (e_ord e) q = false /\ uist_decide e q = ARest).
+Theorem c02_fill_or_rest :
+  forall (F : Type) (NF : Num F) (e : entry (uorder F)) (q : quote F),
+         uist_fires (e_ord e) q = true /\ uist_decide e q = AFill (uist_trade (e_ord e) q) \/
+         uist_fires (e_ord e) q = false /\ uist_decide e q = ARest.
 Proof. exact @uist_decide_cases. Qed.
+
+(* A whole tick: the fills are exactly one per firing resting order, in book order; the orders that did not fire (condition not met, or no quote for their symbol on this tick) keep resting unchanged, in order, followed by the admitted batch; Uist never creates trigger children. *)
+Theorem c02_tick :
+  forall (F : Type) (NF : Num F) (s : uexch F) (qs : quotes (quote F)) 
+           (perm : list nat) (s' : uexch F) (fl : list (N * trade F)) 
+           (adm : list (N * uorder F)) (trig : list N),
+         Inv s ->
+         uist_tick s qs perm = (s', OutTick fl adm trig) ->
+         fl = flat_map (utrade qs) (book s) /\
+         trig = [] /\
+         book s' =
+         filter (fun e : entry (uorder F) => negb (ufires qs e)) (book s) ++ map fresh_entry adm /\
+         map snd adm = match apply_perm (buffer s) perm with
+                       | Some l => l
+                       | None => []
+                       end.
+Proof. exact @uist_tick_spec. Qed.
+
+(* A Uist tick never panics, whatever the orders and quotes. *)
+Theorem c02_never_panics :
+  forall (F : Type) (NF : Num F) (s : uexch F) (qs : quotes (quote F)) (perm : list nat),
+         snd (uist_tick s qs perm) <> OutPanic.
+Proof. exact @uist_tick_no_panic. Qed.
+
+(* Outside the property's domain, recorded: a deserialised order with price = null — limit-sell / stop-buy always fire, limit-buy / stop-sell never do (Rust orders None below Some). *)
+Theorem c02_null_price :
+  forall (F : Type) (NF : Num F) (o : uorder F) (q : quote F),
+         uo_price o = None ->
+         uist_fires o q = match uo_type o with
+                          | LimitBuy | StopSell => false
+                          | _ => true
+                          end.
+Proof. exact @uist_null_price. Qed.
 
 Print Assumptions c02_fires_iff.
 Print Assumptions c02_trade_fields.
 Print Assumptions c02_fill_or_rest.
+Print Assumptions c02_tick.
+Print Assumptions c02_never_panics.
+Print Assumptions c02_null_price.
